@@ -21,7 +21,7 @@ EXPLANATION = ('CLAUSES ONLY — this check does NOT decide that a scored state 
 ADT = 'state::packed::PackedState'
 
 
-def run(ctx):
+def _run_rules(ctx):
     rep, f, cg = ctx.rep, ctx.facts, ctx.cg
     rep.trust('pk/cfg.py dominators; adaptor-chain recognition; rayon/itertools not involved here')
     rep.assume('NOT DECIDED: that the number of searched shells (1..3 by the aspect/angle heuristic) suffices for every '
@@ -409,3 +409,10 @@ def _shell_witnesses(ctx, pl, per, shell_cases=None, witnesses=None, rule='R7', 
                   'the shell heuristic searches only %s shell(s) for the cell a=%.3g, b=%.3g, angle=%.4g rad, but %s: at least %d are '
                   'needed, the overlap is missed and the state gets a score' % (got, w['a'], w['b'], w['angle'], w['why'], w['min_shells']))
         rep.sample('shell heuristic at witness %s -> %s shells (>= %d required)' % (w['name'], got, w['min_shells']))
+
+
+def run(ctx):
+    _run_rules(ctx)
+    from .common import import_obligations
+    # the pairwise overlap predicates the state test is built from (C12 R1 disc / segment predicates, R3 symmetry) are necessary for 'no overlaps anywhere'
+    import_obligations(ctx, 'C12', 'PAIRTEST', only_rules={'R3', 'R1'}, floor=4)
